@@ -4,6 +4,9 @@ import CogentModel.Proofs.PhyloReroot
 import CogentModel.Proofs.PhyloUnrooted
 import CogentModel.Proofs.PhyloSorted
 import CogentModel.Proofs.PhyloOps
+import CogentModel.Proofs.PhyloRF
+import CogentModel.Proofs.PhyloNewick
+import CogentModel.Proofs.PhyloSubtree
 /-! # C09 — property theorems (tree transformations preserve tips, topology and path lengths)
 
 `PTree K`, `rerootAt`, `unrooted`, `sorted`, `getSubTree`, … : `Model/PhyloTree.lean`
@@ -130,5 +133,93 @@ example :
                                          .node "" (some 6) [.node "c" (some 4) [], .node "d" (some 5) []]]
     distSpec 1 "a" "b" (unrootedFixed t) = 3 ∧ distSpec 1 "a" "c" (unrootedFixed t) = 14 ∧
       distSpec 1 "a" "c" t = 14 := by decide +kernel
+
+/-! ## pruning to a subset of tips -/
+
+/- FULL STATEMENT (not proved, false for the code as written):
+   the conclusion below without hypothesis `hun`.  When the source root has > 2 children
+   `get_sub_tree` re-unroots its result with the defective `unrooted` (see above); witness
+   `subtree_dist_counter`, known finding C09-subtree-reunrooting-inflates-clade. -/
+
+/-- `get_sub_tree(names, tipsonly=True)` (any `ignore_missing`, `keep_root`): the result has
+exactly the kept tips, in their original order, and every path length among kept tips is
+unchanged — single-child chains are merged by adding lengths.  For every tree whose non-root
+edges all have a length satisfying `P` (`P` closed under `+`, `¬ P 0`: e.g. "positive"; the
+code drops a merged length that sums to zero or has a missing part), with distinct tips.
+Explicit extra hypothesis `hun`: the source root has ≤ 2 children, or the repaired `unrooted` is used. -/
+theorem subtree_restricts_partial [AddCommMonoid K] [DecidableEq K] (P : K → Prop)
+    (hadd : ∀ x y, P x → P y → P (x + y)) (h0 : ¬ P 0) (d : K)
+    (t : PTree K) (names : List String) (ignoreMissing keepRoot fixed : Bool) (r : PTree K)
+    (h : getSubTree t names ignoreMissing keepRoot true fixed = .ok r)
+    (hg : GoodLensL P t.children) (hnd : (tips t).Nodup)
+    (hun : t.children.length ≤ 2 ∨ fixed = true) :
+    tips r = (tips t).filter (fun x => names.contains x) ∧
+      ∀ a b, names.contains a = true → names.contains b = true → a ∈ tips t → b ∈ tips t →
+        distSpec d a b r = distSpec d a b t :=
+  getSubTree_spec P hadd h0 d t names ignoreMissing keepRoot fixed r h hg hnd hun
+
+example : GoodLensL (fun x : Int => 0 < x)
+    (PTree.node "" none [.node "x" (some 3) [.node "a" (some 1) [], .node "b" (some 2) []], .node "c" (some 4) []]).children := by
+  simp [GoodLensL, GoodLens]
+example : (getSubTree (K := Int)
+    (.node "" none [.node "x" (some 3) [.node "a" (some 1) [], .node "b" (some 2) [], .node "e" (some 7) []], .node "c" (some 4) []])
+    ["a", "c"] false false true).toOption.map tips = some ["a", "c"] := by decide +kernel
+
+/-- the defect reached through `get_sub_tree`: pruning `((a:1,b:2)x:3,c:4,d:5)` to a, b, c turns
+d(a,b) = 3 into 9 -/
+theorem subtree_dist_counter :
+    let t : PTree Int := .node "" none [.node "x" (some 3) [.node "a" (some 1) [], .node "b" (some 2) []],
+                                         .node "c" (some 4) [], .node "d" (some 5) []]
+    distSpec 1 "a" "b" t = 3 ∧
+      (getSubTree t ["a", "b", "c"] false false true).toOption.map (distSpec 1 "a" "b") = some 9 ∧
+      (getSubTree t ["a", "b", "c"] false false true true).toOption.map (distSpec 1 "a" "b") = some 3 := by
+  decide +kernel
+
+/-! ## newick (token level) -/
+
+/-- `parse_string` (the parser state machine over `_Tokeniser` tokens) inverts `get_newick` with
+distances: for every tree — any shape, any names, any lengths, unnamed nodes, missing lengths. -/
+theorem newick_tokens_roundtrip (t : PTree K) : parseToks (newickToks true t) = some t := by
+  rw [parse_newickToks, stripLens_true]
+
+/-- without distances the parser returns the same tree without lengths -/
+theorem newick_tokens_roundtrip_topology (t : PTree K) :
+    parseToks (newickToks false t) = some (stripLens false t) :=
+  parse_newickToks false t
+
+example : newickToks true (PTree.node (K := Int) "" none [.node "a b" (some 1) [], .node "x" (some 3) [.node "c" none [], .node "" (some 2) []]])
+    = [.lp, .label "a b", .colon, .num 1, .comma, .lp, .label "c", .comma, .colon, .num 2, .rp, .label "x", .colon, .num 3, .rp, .semi] := by
+  rfl
+
+/-! ## tree-to-tree distances (Robinson–Foulds; `phylo/tree_distance.py`) -/
+
+/-- symmetric: rooted and unrooted RF, including which argument pairs are rejected -/
+theorem rf_symmetric (t₁ t₂ : PTree K) :
+    rootedRF t₁ t₂ = rootedRF t₂ t₁ ∧ unrootedRF t₁ t₂ = unrootedRF t₂ t₁ :=
+  ⟨rootedRF_comm t₁ t₂, unrootedRF_comm t₁ t₂⟩
+
+/-- The implemented unrooted RF (clades from `subsets()`, each normalised by `_compute_splits`
+to the side containing the first tip, Python-set symmetric difference) equals the independent
+split-set computation `symDiffBip` (bipartitions compared by their separation relation, no
+reference tip) — for all trees on which it is defined. -/
+theorem rf_eq_splitset (t₁ t₂ : PTree K) (n : Nat) (h : unrootedRF t₁ t₂ = .ok n) :
+    n = symDiffBip (tips t₁) (clusters t₁) (clusters t₂) :=
+  unrootedRF_eq t₁ t₂ n h
+
+/-- … and is zero exactly when the two trees have the same bipartitions (equal unrooted topology). -/
+theorem rf_zero_iff_same_splits (t₁ t₂ : PTree K) (n : Nat) (h : unrootedRF t₁ t₂ = .ok n) :
+    n = 0 ↔ (∀ A ∈ clusters t₁, ∃ B ∈ clusters t₂, bipEquiv (tips t₁) A B) ∧
+            (∀ B ∈ clusters t₂, ∃ A ∈ clusters t₁, bipEquiv (tips t₁) B A) := by
+  rw [unrootedRF_eq t₁ t₂ n h]
+  exact symDiffBip_zero_iff _ _ _
+
+example : unrootedRF (K := Int)
+    (.node "" none [.node "a" none [], .node "b" none [], .node "" none [.node "c" none [], .node "d" none []]])
+    (.node "" none [.node "c" none [], .node "a" none [], .node "" none [.node "b" none [], .node "d" none []]])
+    = .ok 2 := by decide +kernel
+example : unrootedRF (K := Int)
+    (.node "" none [.node "a" none [], .node "b" none [], .node "" none [.node "c" none [], .node "d" none []]])
+    (.node "" none [.node "c" none [], .node "d" none [], .node "" none [.node "b" none [], .node "a" none []]])
+    = .ok 0 := by decide +kernel
 
 end CogentModel.C09
